@@ -4,7 +4,7 @@
 //@tables sm9
 //@assume Point::{point_double, point_add, ...} are verified by Verus against their group-law contracts; the `ring_*` lemmas they rest on (integer-polynomial identities, external_body in Verus) are discharged on every run by Lean `ring` (vf/ringcheck.py; any other shape is refused); what stays assumed about the group is ax9_g1_closed / ax9_g1_assoc / ax9_inv_p of sm9_math
 //@assume ax_sm9_table: every entry pair T[i][2(d-1)], T[i][2(d-1)+1] (0 <= i < 37, 1 <= d <= 64) of SM9_P256_PRECOMPUTED is the Montgomery form of the affine point [d * 2^(7 i)] P1 - discharged on every run by exhaustive ground evaluation (tools/check_tables.py sm9), not by Verus; the table value itself is hidden from the solver (external_body const)
-//@assume known finding (Point::point_equals): a representation (0, 0, 0) of the point at infinity compares equal to every finite point; the contract carves this case out (g1eq_degenerate); the library itself only produces (1, 1, 0) for infinity
+//@assume Point::point_equals: the triple (0, 0, 0) is not a Jacobian representation of any point (infinity is (t^2, t^3, 0), t != 0; the library produces (1, 1, 0)); for it the code answers `true` against every finite point, and the contract states that behaviour explicitly (g1eq_degenerate) instead of excluding the triple by a precondition; for all genuine representations equality is proved exact
 //@include-spec sm2_math
 //@include-spec sm9_math
 //@section spec
